@@ -44,4 +44,4 @@ Proof. split; [reflexivity|exact scratch_overlaps_sub_local]. Qed.
 Example C04_nonvacuous :
   fst (alloc_locals 0 [1; 8; 2; 4]) = [(-1, 1); (-16, 8); (-18, 2); (-24, 4)] /\
   pairwise_disjoint (fst (alloc_locals 0 [1; 8; 2; 4])).
-Proof. split; [reflexivity|]. apply locals_disjoint. repeat (constructor; [unfold pow2_size; lia|]). constructor. Qed.
+Proof. split; [reflexivity|]. apply locals_disjoint. repeat (constructor; [first [exists 0; split; [lia|reflexivity] | exists 1; split; [lia|reflexivity] | exists 2; split; [lia|reflexivity] | exists 3; split; [lia|reflexivity]]|]). constructor. Qed.
